@@ -541,6 +541,24 @@ def ns_items(tier):
          "var P;\n(function (P) {\n let Q;\n (function (Q) { Q.v = 1; })(Q = P.Q || (P.Q = {}));\n})(P || (P = {}));\nvar R;\n(function (R) {\n let Q;\n (function (Q) { Q.v = 2; })(Q = R.Q || (R.Q = {}));\n})(R || (R = {}));",
          [("v", "__s([P.Q.v, R.Q.v, P.Q === R.Q])")]),
     ]
+    # a namespace merged with a function or a class: only the namespace's exports become N.x references; the
+    # host's own (non-enumerable) properties - name, length, prototype, static members - must not capture
+    # identifiers of the body that refer to outer variables of the same name
+    hosts = {"fn": ("function H(a, b) { return 1; }", ["name", "length", "prototype"]),
+             "class": ("class H { static helper() { return 'static-helper'; } static sval = 'sv'; m() { return 2; } }", ["name", "length", "prototype", "helper", "sval"]),
+             "fn-then-ns-twice": ("function H(a) { return 1; }\nnamespace H { export const first = 1; }", ["name", "length", "first"])}
+    for hk, (decl_ts, names) in hosts.items():
+        decl_js = decl_ts.replace("namespace H { export const first = 1; }", "(function (H) {\n H.first = 1;\n})(H || (H = {}));")
+        for nm in names:
+            exported_earlier = (nm == "first")
+            ref = "H.first" if exported_earlier else nm
+            ts = "var %s_outer = 0; var %s%s = 'outer-%s';\n%s\nnamespace H { export const got = %s; export function read() { return %s; } export function write() { %s = 'written'; return %s; } }" % (
+                nm, nm, "" if not exported_earlier else "_unused", nm, decl_ts, nm, nm, nm, nm)
+            js = "var %s_outer = 0; var %s%s = 'outer-%s';\n%s\n(function (H) {\n H.got = %s;\n function read() { return %s; }\n H.read = read;\n function write() { %s = 'written'; return %s; }\n H.write = write;\n})(H || (H = {}));" % (
+                nm, nm, "" if not exported_earlier else "_unused", nm, decl_js, ref, ref, ref, ref)
+            outer = nm if not exported_earlier else nm + "_unused"
+            extras.append(("merge-%s-outer-%s" % (hk, nm), ts, js,
+                           [("v", "__s([H.got, H.read(), typeof %s])" % outer), ("m", "(function(){ var w = H.write(); return __s([w, %s, H.read(), Object.keys(H).sort()]); })()" % outer)]))
     for name, ts, js, obs in extras:
         o3 = [(o[0], o[1], o[2] if len(o) > 2 else o[1]) for o in obs]
         out.append(("nsx:" + name, program(ts, [(n, t) for n, t, _ in o3]), program(js, [(n, j) for n, _, j in o3]), [n for n, _, _ in o3], {"group": "nsx", "name": name}))
